@@ -3,6 +3,7 @@ package main
 import (
 	"fmt"
 	"go/token"
+	"go/types"
 	"strings"
 
 	"golang.org/x/tools/go/ssa"
@@ -320,7 +321,65 @@ func checkC06(p *Prog, r *Report) {
 	lintSubset(p, r, "R4l", "no read/write/partial flag is passed or stored under the name of another (cross-wiring lint restricted to the operations code)", func(key string) bool {
 		return strings.Contains(key, "Operations") || strings.Contains(key, "AddFunctionType")
 	})
+	c06Rebuild(p, r)
 	r.Assumes("getters of the remote device tree are uninterpreted")
+}
+
+// c06Rebuild: the feature list of an announced entity is rebuilt, not extended.
+func c06Rebuild(p *Prog, r *Report) {
+	r.Rule("R5", "every AddFeature on a remote entity is either applied to an entity created in the same function or dominated by RemoveAllFeatures on the same entity value (an announcement replaces the entity's features; it never adds to what an earlier announcement left)")
+	eri := p.LookupIface("api", "EntityRemoteInterface")
+	if eri == nil {
+		r.Undecided("R5", "anchor:api.EntityRemoteInterface", "", "interface not found")
+		return
+	}
+	n := 0
+	for _, fn := range p.RepoFns("spine") {
+		idx := 0
+		forEachCall(fn, func(site ssa.CallInstruction) {
+			c, ok := site.(*ssa.Call)
+			if !ok || !calleeIsIfaceMethod(&c.Call, eri, "AddFeature") {
+				return
+			}
+			recv := callRecv(&c.Call)
+			if recv == nil {
+				return
+			}
+			// only receivers that are remote entities
+			if !implementsIface(recv.Type(), eri) {
+				if _, isI := recv.Type().Underlying().(*types.Interface); !isI || !types.Identical(recv.Type().Underlying(), eri) {
+					return
+				}
+			}
+			idx++
+			n++
+			key := fmt.Sprintf("%s|AddFeature#%d", FnName(fn), idx)
+			// fresh: every source of the receiver is a constructor call in this function
+			fresh := true
+			srcs := p.Sources(recv, false)
+			for _, s := range srcs {
+				if s.Kind != "call" || !(strings.Contains(s.Desc, "addNewEntity") || strings.Contains(s.Desc, "NewEntityRemote")) {
+					fresh = false
+				}
+			}
+			if fresh && len(srcs) > 0 {
+				r.Pass("R5", key, p.InstrPos(c), "features are added to an entity created in this function")
+				return
+			}
+			wiped := false
+			forEachCall(fn, func(s2 ssa.CallInstruction) {
+				w, ok := s2.(*ssa.Call)
+				if !ok || !calleeIsIfaceMethod(&w.Call, eri, "RemoveAllFeatures") {
+					return
+				}
+				if callRecv(&w.Call) == recv && instrDominates(w, c) {
+					wiped = true
+				}
+			})
+			r.Check("R5", key, wiped, p.InstrPos(c), "features are added to an existing remote entity ("+Path(recv)+"); RemoveAllFeatures on the same entity dominates the addition: "+fmt.Sprint(wiped))
+		})
+	}
+	r.Floor("R5", "AddFeature calls on remote entities", n, 1)
 }
 
 func valueIs(v ssa.Value, c *ssa.Call) bool {
